@@ -286,6 +286,8 @@ def scenario(draw, ul_types=None, deriv_types=None, models=("linear", "mlp", "na
         "model_seed": draw(seed_s),
         "sim_seed": draw(seed_s),
         "barrier": draw(st.sampled_from([1.0, 1.02, 0.98])),
+        # derivatives may carry user clauses (knock-out, leverage): payoff() then differs from the bare contract
+        "clause": draw(st.sampled_from([None, None, None, "knockout", "leverage"])),
     }
 
 
@@ -311,6 +313,11 @@ def build_scenario(spec: Dict[str, Any]):
     ul = build_primary(spec["ul"])
     deriv = build_derivative(spec["deriv"], ul)
     dtype = DTYPES[spec["ul"]["dtype"]] if spec["ul"].get("dtype") else torch.get_default_dtype()
+    if spec.get("clause") == "knockout":
+        level = spec.get("barrier", 1.0)
+        deriv.add_clause("knockout", lambda d, payoff: payoff.where(d.ul().spot.max(-1).values < 1.05 * level, torch.zeros_like(payoff)))
+    elif spec.get("clause") == "leverage":
+        deriv.add_clause("leverage", lambda d, payoff: 1.5 * payoff + 0.25)
     if spec["deriv"].get("listed"):
         deriv.list(PRICERS["tanh"], cost=spec["listed_costs"][0])
     kind = spec["hedge"]
